@@ -263,7 +263,7 @@ pub fn supervise(a: &HashMap<String, String>) -> i32 {
     let out_path = a.get("out").cloned().unwrap_or_else(|| format!("{}/evidence/.part-{}-{}.json", crate::home(), prop, flavour));
     let replay_dir = a.get("replay-dir").cloned().unwrap_or_else(|| format!("{}/replays", crate::home()));
     let known_path = a.get("known").cloned().unwrap_or_else(|| format!("{}/known_findings.json", crate::home()));
-    let hang_s: u64 = a.get("hang-s").and_then(|s| s.parse().ok()).unwrap_or(if flavour == "asan" { 300 } else { 150 });
+    let hang_s: u64 = a.get("hang-s").and_then(|s| s.parse().ok()).unwrap_or(if flavour == "asan" { 900 } else { 150 });
     let deadline_s: Option<u64> = a.get("deadline-s").and_then(|s| s.parse().ok());
     let me = std::env::current_exe().unwrap().to_string_lossy().to_string();
     // C13 runs the same workload through several feature-set builds of the simulator
@@ -333,7 +333,7 @@ pub fn supervise(a: &HashMap<String, String>) -> i32 {
                     hang_killed[w] = false;
                     let idx = current[w].unwrap_or(u64::MAX);
                     restarts += 1;
-                    if stalled.len() <= 16 && restarts <= 64 && idx != u64::MAX {
+                    if restarts <= 64 && idx != u64::MAX {
                         let next = idx + per_bin as u64;
                         if next < runs {
                             let mut s2 = WorkerSpec { bin: specs[w].bin.clone(), label: specs[w].label.clone(), args: specs[w].args.clone() };
